@@ -23,7 +23,7 @@ ASSUMPTIONS = ['CachedMethods compatibility shim', 'hash(mol) is excluded: it is
                'definition; the property does not list it', 'pack bytes come from the .pyx source under pyxsan']
 SEEDS = ['0', '1', '2', '17', '12345', 'random', '4294967295', '7']
 CONFIG = {
-    'quick': {'shards': 16, 'budget_s': 150, 'groups': 4, 'n_corpus': 500,
+    'quick': {'shards': 16, 'budget_s': 400, 'groups': 4, 'n_corpus': 500,
               'floors': {'evaluations': 20000, 'distinct_nontrivial': 200, 'digests.compared-across-processes': 5000, 'parsed-reactions.digested': 100,
                          'processes.hash-seeds': 4, 'within-process.comparisons': 20000}},
     'thorough': {'shards': 16, 'budget_s': 2400, 'groups': 2, 'n_corpus': 4200,
